@@ -118,33 +118,171 @@ impl<'a> CompiledPredicate<'a> {
         self.eval_expr(self.expr, row)
     }
 
+    /// A row passes a filter only if the predicate is TRUE (not FALSE, not UNKNOWN).
     fn eval_expr(&self, expr: &crate::sql::ast::Expr<'a>, row: &ExecutorRow<'a>) -> bool {
-        use crate::sql::ast::{BinaryOperator, Expr, Literal};
+        self.eval_tv(expr, row) == Some(true)
+    }
+
+    /// SQL three-valued truth value of a predicate: `Some(true)`, `Some(false)`, or `None`
+    /// for UNKNOWN (Kleene logic: a NULL operand makes a comparison UNKNOWN, NOT UNKNOWN is
+    /// UNKNOWN, FALSE AND UNKNOWN is FALSE, TRUE OR UNKNOWN is TRUE).
+    fn eval_tv(&self, expr: &crate::sql::ast::Expr<'a>, row: &ExecutorRow<'a>) -> Option<bool> {
+        use crate::sql::ast::{BinaryOperator, Expr, Literal, UnaryOperator};
 
         match expr {
             Expr::BinaryOp { left, op, right } => match op {
-                BinaryOperator::And => self.eval_expr(left, row) && self.eval_expr(right, row),
-                BinaryOperator::Or => self.eval_expr(left, row) || self.eval_expr(right, row),
+                BinaryOperator::And => match self.eval_tv(left, row) {
+                    Some(false) => Some(false),
+                    l => match (l, self.eval_tv(right, row)) {
+                        (_, Some(false)) => Some(false),
+                        (Some(true), Some(true)) => Some(true),
+                        _ => None,
+                    },
+                },
+                BinaryOperator::Or => match self.eval_tv(left, row) {
+                    Some(true) => Some(true),
+                    l => match (l, self.eval_tv(right, row)) {
+                        (_, Some(true)) => Some(true),
+                        (Some(false), Some(false)) => Some(false),
+                        _ => None,
+                    },
+                },
                 BinaryOperator::Eq
                 | BinaryOperator::NotEq
                 | BinaryOperator::Lt
                 | BinaryOperator::LtEq
                 | BinaryOperator::Gt
                 | BinaryOperator::GtEq => {
-                    let left_val = self.eval_value(left, row);
-                    let right_val = self.eval_value(right, row);
-                    self.compare_values(&left_val, &right_val, op)
+                    let left_val = self.eval_value(left, row)?;
+                    let right_val = self.eval_value(right, row)?;
+                    if matches!(left_val, Value::Null) || matches!(right_val, Value::Null) {
+                        return None;
+                    }
+                    Some(self.compare_values(&Some(left_val), &Some(right_val), op))
                 }
-                _ => true,
+                _ => self.value_as_tv(self.eval_value(expr, row)),
             },
-            Expr::Literal(Literal::Boolean(b)) => *b,
-            Expr::Like { .. } | Expr::Between { .. } | Expr::InList { .. } | Expr::IsNull { .. } => {
-                match self.eval_value(expr, row) {
-                    Some(Value::Int(n)) => n != 0,
-                    _ => false,
+            Expr::UnaryOp {
+                op: UnaryOperator::Not,
+                expr: inner,
+            } => self.eval_tv(inner, row).map(|b| !b),
+            Expr::Literal(Literal::Boolean(b)) => Some(*b),
+            Expr::IsNull {
+                expr: inner,
+                negated,
+            } => {
+                let is_null = if Self::is_predicate(inner) {
+                    self.eval_tv(inner, row).is_none()
+                } else {
+                    matches!(self.eval_value(inner, row), Some(Value::Null) | None)
+                };
+                Some(is_null != *negated)
+            }
+            Expr::InList {
+                expr: inner,
+                negated,
+                list,
+            } => {
+                let target_val = self.eval_value(inner, row)?;
+                if matches!(target_val, Value::Null) {
+                    return None;
+                }
+                let mut unknown = false;
+                for list_item in list.iter() {
+                    match self.eval_value(list_item, row) {
+                        Some(Value::Null) | None => unknown = true,
+                        Some(list_val) => {
+                            if self.values_equal(&target_val, &list_val) {
+                                return Some(!*negated);
+                            }
+                        }
+                    }
+                }
+                if unknown {
+                    None
+                } else {
+                    Some(*negated)
                 }
             }
-            _ => true,
+            Expr::Between {
+                expr: inner,
+                negated,
+                low,
+                high,
+            } => {
+                let val = self.eval_value(inner, row)?;
+                let low_val = self.eval_value(low, row)?;
+                let high_val = self.eval_value(high, row)?;
+                let side = |bound: &Value<'a>, reject: std::cmp::Ordering| -> Option<bool> {
+                    if matches!(val, Value::Null) || matches!(bound, Value::Null) {
+                        return None;
+                    }
+                    Some(self.value_cmp(&val, bound).is_some_and(|o| o != reject))
+                };
+                let in_range = match (
+                    side(&low_val, std::cmp::Ordering::Less),
+                    side(&high_val, std::cmp::Ordering::Greater),
+                ) {
+                    (Some(false), _) | (_, Some(false)) => Some(false),
+                    (Some(true), Some(true)) => Some(true),
+                    _ => None,
+                };
+                in_range.map(|b| b != *negated)
+            }
+            Expr::Like {
+                expr: inner,
+                negated,
+                pattern,
+                escape: _,
+                case_insensitive,
+            } => {
+                let val = self.eval_value(inner, row)?;
+                let pat = self.eval_value(pattern, row)?;
+                match (&val, &pat) {
+                    (Value::Null, _) | (_, Value::Null) => None,
+                    (Value::Text(s), Value::Text(p)) => {
+                        Some(self.like_match(s, p, *case_insensitive) != *negated)
+                    }
+                    _ => Some(*negated),
+                }
+            }
+            // EXISTS / IN (subquery) are executed by the planner (semi / anti joins)
+            Expr::Exists { .. } | Expr::InSubquery { .. } => Some(true),
+            _ => self.value_as_tv(self.eval_value(expr, row)),
+        }
+    }
+
+    /// Truth value of a non-predicate expression used as a condition.
+    fn value_as_tv(&self, val: Option<Value<'a>>) -> Option<bool> {
+        match val {
+            Some(Value::Int(n)) => Some(n != 0),
+            Some(Value::Float(f)) => Some(f != 0.0),
+            Some(Value::Null) | None => None,
+            Some(_) => Some(false),
+        }
+    }
+
+    /// Does the expression produce a truth value (so that it can be UNKNOWN)?
+    fn is_predicate(expr: &crate::sql::ast::Expr<'a>) -> bool {
+        use crate::sql::ast::{BinaryOperator, Expr, UnaryOperator};
+        match expr {
+            Expr::BinaryOp { op, .. } => matches!(
+                op,
+                BinaryOperator::And
+                    | BinaryOperator::Or
+                    | BinaryOperator::Eq
+                    | BinaryOperator::NotEq
+                    | BinaryOperator::Lt
+                    | BinaryOperator::LtEq
+                    | BinaryOperator::Gt
+                    | BinaryOperator::GtEq
+            ),
+            Expr::UnaryOp {
+                op: UnaryOperator::Not,
+                ..
+            } => true,
+            Expr::IsNull { .. } | Expr::InList { .. } | Expr::Between { .. } | Expr::Like { .. } => true,
+            _ => false,
         }
     }
 
@@ -154,6 +292,13 @@ impl<'a> CompiledPredicate<'a> {
         row: &ExecutorRow<'a>,
     ) -> Option<Value<'a>> {
         use crate::sql::ast::{Expr, Literal};
+
+        if Self::is_predicate(expr) {
+            return Some(match self.eval_tv(expr, row) {
+                Some(b) => Value::Int(if b { 1 } else { 0 }),
+                None => Value::Null,
+            });
+        }
 
         match expr {
             Expr::Column(col_ref) => {
